@@ -152,6 +152,9 @@ pub fn check_tie_custom_on(searcher: &Searcher, n: usize, keys: &[u8]) -> Option
     let mut all: Vec<(u64, DocAddress)> = vec![];
     for (ord, seg) in searcher.segment_readers().iter().enumerate() {
         for doc in 0..seg.max_doc() {
+            if seg.is_deleted(doc) {
+                continue;
+            }
             let a = DocAddress::new(ord as u32, doc);
             all.push((table[id_of(searcher, a) as usize] as u64, a));
         }
@@ -167,6 +170,64 @@ pub fn check_tie_custom_on(searcher: &Searcher, n: usize, keys: &[u8]) -> Option
     }
     if let Err(e) = check_windows(&all, &get, (ti.n + 1).min(5), (ti.n + 1).min(5)) {
         return Some(("custom_key_window".into(), e));
+    }
+    None
+}
+
+/// tie index with deleted documents (ids), so that the alive-document order of the segments differs from their
+/// max_doc order; searched single- and multi-threaded
+pub fn tie_searcher_del(sizes: &[usize], deleted: &[usize], threads: usize) -> (Searcher, usize) {
+    let ti = build_tie_index(sizes, None);
+    let id = ti.index.schema().get_field("id").unwrap();
+    if !deleted.is_empty() {
+        let mut w: IndexWriter = ti.index.writer_with_num_threads(1, 15_000_000).unwrap();
+        w.set_merge_policy(Box::new(tantivy::merge_policy::NoMergePolicy));
+        for d in deleted {
+            w.delete_term(tantivy::Term::from_field_u64(id, *d as u64));
+        }
+        w.commit().unwrap();
+    }
+    let mut index = ti.index.clone();
+    if threads > 1 {
+        index.set_multithread_executor(threads).unwrap();
+    }
+    (index.reader().unwrap().searcher(), ti.n)
+}
+
+/// scores that are zero or negative: every limit / offset window of order_by_score equals the slice of the
+/// exhaustive ranking (a heap that is not full yet must accept any score)
+pub fn check_nonpositive_scores(sizes: &[usize], variant: usize) -> Option<(String, String)> {
+    use tantivy::query::{BooleanQuery, BoostQuery, ConstScoreQuery, Occur, Query, TermQuery};
+    let n: usize = sizes.iter().sum();
+    let keys: Vec<u8> = (0..n).map(|i| (i % 2) as u8).collect();
+    let ti = build_tie_index(sizes, Some(&keys));
+    let searcher = ti.index.reader().unwrap().searcher();
+    let body = ti.index.schema().get_field("body").unwrap();
+    let num = ti.index.schema().get_field("num").unwrap();
+    let term = || Box::new(TermQuery::new(tantivy::Term::from_field_text(body, "a"), IndexRecordOption::WithFreqs)) as Box<dyn Query>;
+    let one = || Box::new(TermQuery::new(tantivy::Term::from_field_u64(num, 1), IndexRecordOption::Basic)) as Box<dyn Query>;
+    let q: Box<dyn Query> = match variant {
+        0 => Box::new(ConstScoreQuery::new(Box::new(AllQuery), 0.0)),
+        1 => Box::new(BoostQuery::new(term(), 0.0)),
+        2 => Box::new(BoostQuery::new(term(), -1.0)),
+        3 => Box::new(ConstScoreQuery::new(term(), -2.5)),
+        // half of the documents demoted below zero, the others at zero
+        4 => Box::new(BooleanQuery::new(vec![(Occur::Should, Box::new(ConstScoreQuery::new(Box::new(AllQuery), 0.0)) as Box<dyn Query>), (Occur::Should, Box::new(ConstScoreQuery::new(one(), -1.0)))])),
+        // positive, zero
+        _ => Box::new(BooleanQuery::new(vec![(Occur::Should, Box::new(ConstScoreQuery::new(Box::new(AllQuery), 0.0)) as Box<dyn Query>), (Occur::Should, Box::new(ConstScoreQuery::new(one(), 1.0)))])),
+    };
+    let get = |k: usize, o: usize| searcher.search(&q, &TopDocs::with_limit(k).and_offset(o).order_by_score()).unwrap();
+    let mut want = searcher.search(&q, &AllScores).unwrap();
+    want.sort_by(|x, y| y.0.partial_cmp(&x.0).unwrap().then(addr_key(&x.1).cmp(&addr_key(&y.1))));
+    if want.len() != n {
+        return Some(("machinery".into(), format!("variant {variant}: {} of {n} documents match", want.len())));
+    }
+    let full = get(n + 3, 0);
+    if full != want {
+        return Some(("nonpositive_score_order".into(), format!("query variant {variant}: order_by_score complete list {:?}, exhaustive ranking {:?}", full.iter().map(|x| (x.0, addr_key(&x.1))).collect::<Vec<_>>(), want.iter().map(|x| (x.0, addr_key(&x.1))).collect::<Vec<_>>())));
+    }
+    if let Err(e) = check_windows(&want, &get, (n + 1).min(5), (n + 1).min(4)) {
+        return Some(("nonpositive_score_window".into(), format!("query variant {variant}: {e}")));
     }
     None
 }
@@ -561,6 +622,26 @@ pub fn replay(case: &Value) -> Vec<Violation> {
                 let keys: Vec<u8> = serde_json::from_value(case["keys"].clone()).unwrap();
                 check_tie_fast(&sizes, &keys)
             }
+            "tie_deleted" => {
+                let sizes: Vec<usize> = serde_json::from_value(case["sizes"].clone()).unwrap();
+                let deleted: Vec<usize> = serde_json::from_value(case["deleted"].clone()).unwrap();
+                let keys: Vec<u8> = serde_json::from_value(case["keys"].clone()).unwrap();
+                let threads = case["threads"].as_u64().unwrap_or(1) as usize;
+                // with a thread pool the arrival order of the segments' results can vary: a replay gets several attempts
+                let mut r = None;
+                for _ in 0..(if threads > 1 { 40 } else { 1 }) {
+                    let (searcher, nn) = tie_searcher_del(&sizes, &deleted, threads);
+                    r = check_tie_custom_on(&searcher, nn, &keys);
+                    if r.is_some() {
+                        break;
+                    }
+                }
+                r
+            }
+            "nonpositive" => {
+                let sizes: Vec<usize> = serde_json::from_value(case["sizes"].clone()).unwrap();
+                check_nonpositive_scores(&sizes, case["variant"].as_u64().unwrap_or(0) as usize)
+            }
             "alpha" => {
                 let c: AlphaCorpus = serde_json::from_value(case["corpus"].clone()).unwrap();
                 let index = build_alpha_index(&c);
@@ -629,6 +710,9 @@ pub fn run(ctx: &Ctx) -> Report {
         Fast(Vec<usize>),
         Prune(PruneCorpus),
         Alpha(AlphaCorpus),
+        /// (sizes, deleted ids): custom keys, single- and multi-threaded
+        Deleted(Vec<usize>, Vec<usize>),
+        NonPositive(Vec<usize>),
     }
     let mut work: Vec<W> = vec![];
     let (ms, md, mt) = if thorough { (4, 5, 10) } else { (3, 3, 8) };
@@ -643,6 +727,33 @@ pub fn run(ctx: &Ctx) -> Report {
     }
     for c in prune_corpora(thorough) {
         work.push(W::Prune(c));
+    }
+    // three segments whose alive-document order differs from their size order after deletes
+    let tri: Vec<Vec<usize>> = if thorough { shapes(3, 4, 10).into_iter().filter(|s| s.len() == 3).collect() } else { shapes(3, 3, 9).into_iter().filter(|s| s.len() == 3).collect() };
+    for sizes in tri {
+        let n: usize = sizes.iter().sum();
+        let maxdel = if thorough { 3 } else { 2 };
+        for mask in 1u32..(1 << n) {
+            if mask.count_ones() as usize > maxdel {
+                continue;
+            }
+            let deleted: Vec<usize> = (0..n).filter(|i| mask >> i & 1 == 1).collect();
+            // keep at least one alive document per segment
+            let mut start = 0;
+            let mut ok = true;
+            for sz in &sizes {
+                if (start..start + sz).all(|i| deleted.contains(&i)) {
+                    ok = false;
+                }
+                start += sz;
+            }
+            if ok {
+                work.push(W::Deleted(sizes.clone(), deleted));
+            }
+        }
+    }
+    for s in shapes(3, 3, 6) {
+        work.push(W::NonPositive(s));
     }
     for s1 in 0..4 {
         for s2 in 0..4 {
@@ -680,6 +791,45 @@ pub fn run(ctx: &Ctx) -> Report {
             }
             if i % 17 == 0 {
                 st.sample(json!({"kind":"tie_custom","sizes":sizes,"threads":threads,"keys":"all assignments over {0,1} (and {0,1,2} when <= 6 docs)"}));
+            }
+        }
+        W::Deleted(sizes, deleted) => {
+            let n: usize = sizes.iter().sum();
+            let keysets: Vec<Vec<u8>> = vec![vec![0; n], (0..n).map(|i| (i % 2) as u8).collect(), (0..n).map(|i| ((i / 2) % 2) as u8).collect()];
+            for threads in [1usize, 3] {
+                let (searcher, nn) = tie_searcher_del(sizes, deleted, threads);
+                for keys in &keysets {
+                    st.eval();
+                    st.count("tie_deleted_cases");
+                    st.nontrivial(&("deleted", sizes, deleted, threads, keys));
+                    let r = catch_unwind(AssertUnwindSafe(|| check_tie_custom_on(&searcher, nn, keys)));
+                    let v = match r {
+                        Ok(None) => continue,
+                        Ok(Some((rule, what))) => (rule, what),
+                        Err(e) => ("topk_panic".to_string(), panic_message(e)),
+                    };
+                    st.violation(Violation::new(&v.0, format!("segments {sizes:?} deleted ids {deleted:?} keys {keys:?} threads {threads}: {}", v.1), json!({"kind":"tie_deleted","sizes":sizes,"deleted":deleted,"keys":keys,"threads":threads})));
+                    return;
+                }
+            }
+        }
+        W::NonPositive(sizes) => {
+            for variant in 0..6usize {
+                st.eval();
+                st.count("nonpositive_score_cases");
+                st.nontrivial(&("nonpositive", sizes, variant));
+                let r = catch_unwind(AssertUnwindSafe(|| check_nonpositive_scores(sizes, variant)));
+                let v = match r {
+                    Ok(None) => continue,
+                    Ok(Some((rule, what))) if rule == "machinery" => {
+                        st.errors.push(what);
+                        continue;
+                    }
+                    Ok(Some((rule, what))) => (rule, what),
+                    Err(e) => ("topk_panic".to_string(), format!("{} [{}]", panic_message(e), last_panic())),
+                };
+                st.violation(Violation::new(&v.0, format!("segments {sizes:?}: {}", v.1), json!({"kind":"nonpositive","sizes":sizes,"variant":variant})));
+                break;
             }
         }
         W::Fast(sizes) => {
@@ -740,7 +890,7 @@ pub fn run(ctx: &Ctx) -> Report {
         }
     });
     rep.set("exhaustive", done == work.len());
-    rep.set("rule", "tie family: every segment shape (<= 3 segments x <= 3 docs; thorough 4 x 5) x every key assignment over {0,1} (and {0,1,2}) through tweak_score, single and multi-threaded; score ties and u64 / i64 / f64 / date / string fast-field keys with missing values, ascending and descending; every limit 1..5 x offset 0..5 window must equal the slice of the complete list ordered (key, ascending address). pruning family: 450-document corpora with periodic (tf, length) patterns, a hot document at each block-boundary position, tf 300, 1-2 segments and an avgdl-shifting segment x 12 queries (term, unions and intersections of 2-4 terms, required-optional, generic, msm, boosted) x K in {1,2,3,10,500}: TopDocs by score vs the exhaustive ranking from a non-pruning collector (exact for one clause, 4 ulp per clause otherwise). Non-trivial: assignment with a tie / every pruning case; distinct by case descriptor");
+    rep.set("rule", "tie family with deletes: every shape of exactly 3 segments (<= 3 docs each; thorough 4) x every set of <= 2 (thorough 3) deleted documents leaving each segment alive x 3 key patterns x {1, 3} search threads, custom keys: every window equals the slice of the ranking by (key desc, address asc) of the alive documents. Non-positive scores: every shape of <= 3 segments x 6 queries whose scores are zero, negative or mixed (const 0, boost 0, boost -1, const -2.5, demotion clause, promotion clause): every limit x offset window of order_by_score equals the slice of the exhaustive ranking. tie family: every segment shape (<= 3 segments x <= 3 docs; thorough 4 x 5) x every key assignment over {0,1} (and {0,1,2}) through tweak_score, single and multi-threaded; score ties and u64 / i64 / f64 / date / string fast-field keys with missing values, ascending and descending; every limit 1..5 x offset 0..5 window must equal the slice of the complete list ordered (key, ascending address). pruning family: 450-document corpora with periodic (tf, length) patterns, a hot document at each block-boundary position, tf 300, 1-2 segments and an avgdl-shifting segment x 12 queries (term, unions and intersections of 2-4 terms, required-optional, generic, msm, boosted) x K in {1,2,3,10,500}: TopDocs by score vs the exhaustive ranking from a non-pruning collector (exact for one clause, 4 ulp per clause otherwise). Non-trivial: assignment with a tie / every pruning case; distinct by case descriptor");
     for k in ["tie_custom_cases", "tie_fast_cases", "prune_cases"] {
         if st.counters.get(k).copied().unwrap_or(0) == 0 {
             rep.machinery_errors.push(format!("vacuous: {k} = 0"));
